@@ -24,7 +24,9 @@ import time
 VERIF = os.path.dirname(os.path.dirname(os.path.abspath(__file__)))
 REPO = os.environ.get("VERIF_REPO", "/repo")
 LEAN = os.path.join(VERIF, "lean")
-BUILD = os.path.join(VERIF, "build")
+BUILD = os.environ.get("VERIF_BUILD", os.path.join(VERIF, "build"))
+# development only (mutation runs): redirect evidence/replays so that registered outputs are not overwritten
+OUTROOT = os.environ.get("VERIF_OUT", VERIF)
 ALLOWED_AXIOMS = {"propext", "Classical.choice", "Quot.sound"}
 FORBIDDEN = re.compile(
     r"\bsorry\b|\badmit\b|^\s*axiom\s|native_decide|bv_decide|implemented_by|\bunsafe\s|maxHeartbeats\s+0\b|@\[extern"
@@ -279,24 +281,24 @@ def match_finding(findings, op, msg):
 # ------------------------------------------------------------------------------------------------
 
 def write_evidence(pid, tier, seed, coverage, wall, violations, assumptions):
-    os.makedirs(os.path.join(VERIF, "evidence"), exist_ok=True)
+    os.makedirs(os.path.join(OUTROOT, "evidence"), exist_ok=True)
     ev = {
         "property_id": pid, "tier": tier, "seed": seed, "level": "proof",
         "coverage": coverage, "assumptions": assumptions, "wall_s": round(wall, 2),
         "violations": violations,
     }
-    with open(os.path.join(VERIF, "evidence", pid + ".json"), "w") as fh:
+    with open(os.path.join(OUTROOT, "evidence", pid + ".json"), "w") as fh:
         json.dump(ev, fh, indent=1)
 
 
 def write_replay(pid, obj):
-    d = os.path.join(VERIF, "replays", pid)
+    d = os.path.join(OUTROOT, "replays", pid)
     os.makedirs(d, exist_ok=True)
     h = hashlib.sha1(json.dumps(obj, sort_keys=True).encode()).hexdigest()[:12]
     p = os.path.join(d, h + ".json")
     with open(p, "w") as fh:
         json.dump(obj, fh, indent=1)
-    return os.path.relpath(p, VERIF)
+    return os.path.relpath(p, OUTROOT)
 
 
 def write_if_changed(path, content):
